@@ -30,12 +30,26 @@ CLAIMED = {
         "Termination and behavioural equality of instances are not decided.",
    technique="static analysis: variant-coverage audit (diagonal coverage for pair matches) over auto-discovered type traversals, guard/order shape rules",
    ref="DESIGN.md section 4, C07"),
+ "C08": dict(
+   text="Whether a function value that flows through data structures, branches or arguments stays callable is NOT decided (flow-dependent, "
+        "type-directed conversion). Decided are capture-bookkeeping facts: the free-variable walk has no catch-all and visits every sub-term, "
+        "its bound stack is paired, every positional index comes from enumerate() over the full unfiltered collection, and environment "
+        "fields / creation arguments / rebinding lets derive from one ordered collection.",
+   technique="static analysis: child-use rule on the capture walk, adaptor-chain rule for positional enumerate(), pairing",
+   ref="DESIGN.md section 4, C08"),
  "C09": dict(
    text="Static decision of where evaluation order is fixed: continuation nesting in ANF follows the declaration order of children, "
         "logical operators' rhs must not be hoisted, branches and loop parts keep their own region (ANF and compile_while), DCE's effect "
         "predicates are total and count acting/failing forms, `go` spawns once. Goroutine interleavings are not decided.",
    technique="static analysis: continuation-nesting (syntactic dominance) rule, def-use into the loop body, coverage audit of effect predicates",
    ref="DESIGN.md section 4, C09"),
+ "C02": dict(
+   text="Go validity of the unbounded output language is NOT decided (it needs a Go type checker on outputs). Decided: builtin <-> runtime "
+        "table agreement, the failure helper's result type vs its use, totality of the type mapping and of the structured Go type printer "
+        "over every type former, call-only builtins must not be values, the import qualifier and DCE's import binding select the same path "
+        "segment, and Go type declarations are collected through every type former.",
+   technique="static analysis: table agreement, variant-coverage audit of type printers/mappers, sibling cross-check (path segment selector)",
+   ref="DESIGN.md section 4, C02"),
  "C03": dict(
    text="Static decision of the gates and of the unifier/pattern plumbing: has_errors() gates between every diagnostics-producing stage and "
         "the next stage or Ok result, resolver diagnostics merged, Typer::unify (occurs-before-bind, all diagonals, arity before zip, tested "
